@@ -343,7 +343,7 @@ impl SenderSpec {
     pub fn json(&self) -> Value {
         json!({"tsi": self.tsi, "oti": self.oti.json(), "fdt_duration_s": self.fdt_duration_s,
             "fdt_carousel": format!("{:?}", self.fdt_carousel), "fdt_start_id": self.fdt_start_id,
-            "fdt_cenc": self.fdt_cenc.name(), "sct": self.inband_sct, "full_fdt": self.full_fdt,
+            "fdt_cenc": self.fdt_cenc.name(), "sct": self.inband_sct, "rfc3926": self.rfc3926, "full_fdt": self.full_fdt,
             "queues": self.queues, "interleave": self.interleave, "toi_bits": self.toi_bits,
             "toi_initial": self.toi_initial.map(|v| v.to_string()), "groups": self.groups})
     }
